@@ -239,4 +239,9 @@ def run(c, prog):
     rule_comp(c, prog)
     rule_disp(c, prog)
     rule_ids(c, prog)
+    # shared clauses: the reader-side scalar codecs equal the document's formulas (zig-zag, float rotation, interleaving, referent accumulation),
+    # and a migrating legacy chunk never overwrites an explicit value whatever the chunk order
+    from . import C01_alg, C15
+    C01_alg.run(core.Alias(c, "C04"), prog)
+    C15.rule_sites(core.Alias(c, "C04"), prog, full=False)
     c.not_decided += ["equality of the decoded DOM with the one described, for every foreign encoding (a run)", "third-party decompressors"]
